@@ -152,3 +152,27 @@ def _(c):
               name="definitions_recorded_on_earlier_visits_are_kept")
     c.ensures(f"implies(not {bound}, (node, varname) in self.unbound_usages and same(self.usage_to_definition_nodes, old(self.usage_to_definition_nodes)))", name="an_unbound_use_is_remembered")
     c.assume("usage_to_definition_nodes is a defaultdict(list) (`+=` on a missing key starts from []: modelled as a read that cannot raise); uses are keyed by (node, name) tuples compared structurally")
+
+
+# ---------------------------------------------------------------------------
+# the composite index: an assignment to `x.a` must reset what is known about `x.a.b`, `x.a.b.c`, ... (FunctionScope.set walks name_to_composites)
+
+@contract("pyanalyze.stacked_scopes.FunctionScope._add_composite", props=P + ["C01", "C02"])
+def _(c):
+    c.param("varname", "val")
+    c.fieldspec("attributes", "tuple")
+    # ghost event logs: the prefix composites built, and the index entries added under them (the dict of sets itself is not modelled)
+    c.record_calls += ["CompositeVariable", "self.name_to_composites[composite].add", "self.name_to_composites[varname.varname].add"]
+    built = "appended('CompositeVariable')"
+    added = "appended('self.name_to_composites[composite].add')"
+    inv = (f"len({built}) == _k0 and len({added}) == _k0 and all(same(call_args('CompositeVariable', j)[0], varname.varname) and seq_eq(unS_(call_args('CompositeVariable', j)[1]), varname.attributes[:j + 1])"
+           f" and same(call_args('self.name_to_composites[composite].add', j)[0], varname) for j in range(_k0))")
+    c.loop(0, invariant=[("one_index_entry_per_proper_prefix_so_far", inv)])
+    n = "len(varname.attributes)"
+    c.ensures("implies(isa(varname, CompositeVariable), len(appended('self.name_to_composites[varname.varname].add')) == 1 and same(call_args('self.name_to_composites[varname.varname].add', 0)[0], varname))",
+              name="a_composite_is_indexed_under_its_root_name")
+    c.ensures(f"implies(isa(varname, CompositeVariable) and {n} > 1, len({built}) == {n} - 1 and len({added}) == {n} - 1)", name="one_index_entry_per_proper_prefix")
+    c.ensures(f"implies(isa(varname, CompositeVariable) and {n} > 1, all(same(call_args('CompositeVariable', j)[0], varname.varname) and seq_eq(unS_(call_args('CompositeVariable', j)[1]), varname.attributes[:j + 1])"
+              f" and same(call_args('self.name_to_composites[composite].add', j)[0], varname) for j in range({n} - 1)))",
+              name="a_composite_is_indexed_under_every_proper_prefix_so_assigning_to_an_ancestor_resets_it")
+    c.assume("the j-th recorded add goes to the set stored under the j-th composite built (the statement `self.name_to_composites[composite].add(varname)` directly follows the construction of `composite`)")
